@@ -345,6 +345,13 @@ func (c *converter) syncTCPRouteGateway(tcpRouteSource *tcpRouteSource, gatewayS
 		if sectionName != nil && *sectionName != listener.Name {
 			continue
 		}
+		if !listenerSupportsTCPRoute(&listener) {
+			// a route without sectionName refers to all the listeners of the gateway,
+			// but a TCPRoute can only be attached to the ones that speak plain TCP
+			c.logger.Warn("skipping attachment of %s to %s listener '%s': protocol '%s' does not support TCPRoute",
+				tcpRouteSource, gatewaySource, listener.Name, listener.Protocol)
+			continue
+		}
 		if err := c.checkListenerAllowed(gatewaySource, &tcpRouteSource.source, &listener); err != nil {
 			c.logger.Warn("skipping attachment of %s to %s listener '%s': %s",
 				tcpRouteSource, gatewaySource, listener.Name, err)
@@ -365,6 +372,17 @@ func (c *converter) syncTCPRouteGateway(tcpRouteSource *tcpRouteSource, gatewayS
 }
 
 var errRouteNotAllowed = fmt.Errorf("listener does not allow the route")
+
+// listenerSupportsTCPRoute returns false if the listener uses one of the core
+// protocols that cannot carry a TCPRoute. Listener's protocol is still not
+// evaluated for HTTPRoute.
+func listenerSupportsTCPRoute(listener *gatewayv1.Listener) bool {
+	switch listener.Protocol {
+	case gatewayv1.HTTPProtocolType, gatewayv1.HTTPSProtocolType, gatewayv1.TLSProtocolType, gatewayv1.UDPProtocolType:
+		return false
+	}
+	return true
+}
 
 func (c *converter) checkListenerAllowed(gatewaySource *gatewaySource, routeSource *source, listener *gatewayv1.Listener) error {
 	if listener == nil || listener.AllowedRoutes == nil {
